@@ -82,7 +82,6 @@ Qed.
 Definition box_g (g : list nat) (cur : list R) : Prop :=
   forall i, (i < length nodes)%nat -> In (node i) g -> lo_g g <= nth i cur 0 <= hi_g g.
 
-Hypothesis box_nonempty : forall g, In g gl -> lo_g g <= hi_g g.
 Hypothesis ls_box : forall k g cur, In g gl -> lo_g g <= fst (call k g cur) <= hi_g g.
 
 Lemma sweep_length : forall gl' k cur bc, length cur = length nodes ->
@@ -120,7 +119,6 @@ Qed.
 
 (* ---- (3) no worse than the start, up to (#groups) * delta ---- *)
 Variable delta : R.
-Hypothesis delta_nonneg : 0 <= delta.
 Hypothesis tol_nonneg : 0 <= tol.
 
 (* one level per group, inside the group's range *)
@@ -175,3 +173,130 @@ Proof.
   split; [lra|]. intros Hn. split; [exact H1|]. split; [exact H2|]. lra.
 Qed.
 End CDP.
+
+(* ---- the groups produced by _base_stock_group_assignments are pairwise equal-or-disjoint --------------- *)
+Lemma group_list_disjoint nodes groups : forall g g',
+  In g (group_list nodes groups) -> In g' (group_list nodes groups) -> g = g' \/ forall n, ~ (In n g /\ In n g').
+Proof.
+  intros g g' Hg Hg'. destruct (group_list_spec nodes groups) as [Hs _].
+  destruct (Hs g Hg) as (_ & i & _ & Ei). destruct (Hs g' Hg') as (_ & j & _ & Ej).
+  destruct (Nat.eq_dec i j) as [E|N]; [left; subst; reflexivity|].
+  right. intros n [H1 H2]. subst g g'. apply filter_In in H1, H2.
+  destruct H1 as [_ H1], H2 as [_ H2]. apply Nat.eqb_eq in H1, H2. congruence.
+Qed.
+
+(* ---- meio_by_coordinate_descent as a whole ------------------------------------------------------------ *)
+Section CDTop.
+Variables (nodes : list nat) (f : list R -> R) (ls : nat -> (R -> R) -> R -> R -> R * R) (lo hi : nat -> R).
+Variables (groups : option (list (list nat))) (start : nat -> R) (tol : R).
+Let gl := group_list nodes groups.
+Let og := opt_group groups.
+Notation callg := (call nodes f ls lo hi).
+
+Definition ls_sound_on : Prop := forall k g cur, In g gl ->
+  snd (callg k g cur) = slice nodes f g cur (fst (callg k g cur)).
+Definition ls_box_on : Prop := forall k g cur, In g gl -> lo_g lo g <= fst (callg k g cur) <= hi_g hi g.
+Definition ls_quality_on (delta : R) : Prop := forall k g cur, In g gl -> consistent nodes lo hi gl cur ->
+  forall x0, lo_g lo g <= x0 <= hi_g hi g -> snd (callg k g cur) <= slice nodes f g cur x0 + delta.
+Definition start_in_box : Prop := forall g n, In g gl -> In n g -> lo_g lo g <= start (og n) <= hi_g hi g.
+
+Theorem cd_cost fuel S c : ls_sound_on ->
+  cd Rminus rleb nodes f ls lo hi fuel groups start tol = Some (S, c) -> c = f S.
+Proof. intros Hs. unfold cd. apply cd_loop_reports_cost. exact Hs. Qed.
+
+Theorem cd_box fuel S c : ls_box_on ->
+  cd Rminus rleb nodes f ls lo hi fuel groups start tol = Some (S, c) ->
+  length S = length nodes /\
+  forall g, In g gl -> forall i, (i < length nodes)%nat -> In (nth i nodes 0%nat) g ->
+     lo (list_min g) <= nth i S 0 <= hi (list_min g).
+Proof.
+  intros Hb. unfold cd. intros E.
+  apply (cd_loop_in_box nodes f ls lo hi gl tol (group_list_disjoint nodes groups) Hb) in E;
+    [exact E | unfold cd_start; apply map_length].
+Qed.
+
+Lemma start_consistent : start_in_box -> consistent nodes lo hi gl (cd_start nodes groups start).
+Proof.
+  intros Hs. split; [unfold cd_start; apply map_length|].
+  intros g Hg. destruct (group_list_spec nodes groups) as [Hsp _]. destruct (Hsp g Hg) as (Hne & i & Hi & Eg).
+  exists (start i). split.
+  - destruct g as [|n0 g']; [congruence|].
+    assert (Hn0 : In n0 (n0 :: g')) by (left; reflexivity).
+    pose proof (Hs _ n0 Hg Hn0) as H. rewrite Eg in Hn0. apply filter_In in Hn0. destruct Hn0 as [_ E0].
+    apply Nat.eqb_eq in E0. unfold og in H. rewrite E0 in H. exact H.
+  - intros j Hj Hn. unfold cd_start.
+    rewrite (nth_indep _ 0 (start (opt_group groups 0%nat))) by (rewrite map_length; exact Hj).
+    rewrite (map_nth (fun n => start (opt_group groups n))).
+    rewrite Eg in Hn. apply filter_In in Hn. destruct Hn as [_ E0]. apply Nat.eqb_eq in E0. rewrite E0. reflexivity.
+Qed.
+
+Theorem cd_no_worse_than_start fuel S c delta : 0 <= tol ->
+  ls_sound_on -> ls_box_on -> ls_quality_on delta -> start_in_box ->
+  cd Rminus rleb nodes f ls lo hi fuel groups start tol = Some (S, c) ->
+  c <= f (cd_start nodes groups start) + INR (length gl) * delta.
+Proof.
+  intros Ht Hs Hb Hq Hst. unfold cd.
+  apply (cd_loop_no_worse nodes f ls lo hi gl tol (group_list_disjoint nodes groups) Hs Hb delta Ht Hq).
+  apply start_consistent. exact Hst.
+Qed.
+End CDTop.
+
+(* ---- with golden-section search as the line search ------------------------------------------------------ *)
+Section CDGolden.
+Variables (nodes : list nat) (f : list R -> R) (lo hi : nat -> R).
+Variables (groups : option (list (list nat))) (start : nat -> R) (tol ls_tol L : R).
+Variable nk : nat -> nat.        (* number of golden-section iterations of the k-th line search *)
+Let gl := group_list nodes groups.
+Definition golden_ls : nat -> (R -> R) -> R -> R -> R * R := fun k g l h => golden ROps g l h ls_tol (nk k).
+
+Hypothesis ls_tol_nonneg : 0 <= ls_tol.
+Hypothesis box_ok : forall g, In g gl -> lo (list_min g) <= hi (list_min g).
+
+Lemma Rmin_box g : In g gl -> Rmin (lo (list_min g)) (hi (list_min g)) = lo (list_min g) /\
+                              Rmax (lo (list_min g)) (hi (list_min g)) = hi (list_min g).
+Proof. intros Hg. pose proof (box_ok g Hg). split; [apply Rmin_left | apply Rmax_right]; assumption. Qed.
+
+Theorem cd_golden_cost fuel S c :
+  cd Rminus rleb nodes f golden_ls lo hi fuel groups start tol = Some (S, c) -> c = f S.
+Proof. apply cd_cost. intros k g cur _. unfold call, golden_ls. apply golden_value. Qed.
+
+Theorem cd_golden_box fuel S c :
+  cd Rminus rleb nodes f golden_ls lo hi fuel groups start tol = Some (S, c) ->
+  length S = length nodes /\
+  forall g, In g gl -> forall i, (i < length nodes)%nat -> In (nth i nodes 0%nat) g ->
+     lo (list_min g) <= nth i S 0 <= hi (list_min g).
+Proof.
+  apply cd_box. intros k g cur Hg. unfold call, golden_ls, lo_g, hi_g.
+  pose proof (golden_in_interval (slice nodes f g cur) (lo (list_min g)) (hi (list_min g)) ls_tol (nk k) ls_tol_nonneg) as H.
+  destruct (Rmin_box g Hg) as [E1 E2]. rewrite E1, E2 in H. exact H.
+Qed.
+
+(* every slice through a consistent point is unimodal and L-Lipschitz on the group's range, and every line
+   search ran enough iterations (rho^n (hi-lo) <= line_search_tol): never worse than the start, up to
+   (#groups) * L * line_search_tol / 2 *)
+Hypothesis L_nonneg : 0 <= L.
+Hypothesis tol_nonneg : 0 <= tol.
+Hypothesis slices_unimodal : forall g cur, In g gl -> consistent nodes lo hi gl cur ->
+  exists xs, unimodal (slice nodes f g cur) (lo (list_min g)) (hi (list_min g)) xs.
+Hypothesis slices_lipschitz : forall g cur, In g gl -> consistent nodes lo hi gl cur ->
+  lipschitz (slice nodes f g cur) (lo (list_min g)) (hi (list_min g)) L.
+Hypothesis n_suffices : forall k g, In g gl ->
+  rho ^ (S (nk k - 1)) * (hi (list_min g) - lo (list_min g)) <= ls_tol.
+
+Theorem cd_golden_no_worse fuel S c : start_in_box nodes lo hi groups start ->
+  cd Rminus rleb nodes f golden_ls lo hi fuel groups start tol = Some (S, c) ->
+  c <= f (cd_start nodes groups start) + INR (length gl) * (L * ls_tol / 2).
+Proof.
+  intros Hst. apply cd_no_worse_than_start; try assumption.
+  - intros k g cur _. unfold call, golden_ls. apply golden_value.
+  - intros k g cur Hg. unfold call, golden_ls, lo_g, hi_g.
+    pose proof (golden_in_interval (slice nodes f g cur) (lo (list_min g)) (hi (list_min g)) ls_tol (nk k) ls_tol_nonneg) as H.
+    destruct (Rmin_box g Hg) as [E1 E2]. rewrite E1, E2 in H. exact H.
+  - intros k g cur Hg Hc x0 Hx0. unfold call, golden_ls, lo_g, hi_g in *.
+    destruct (slices_unimodal g cur Hg Hc) as (xs & Hu). destruct (Rmin_box g Hg) as [E1 E2].
+    apply (golden_quality (slice nodes f g cur) (lo (list_min g)) (hi (list_min g)) ls_tol xs L (nk k));
+      rewrite ?E1, ?E2; try assumption.
+    + apply slices_lipschitz; assumption.
+    + apply n_suffices. exact Hg.
+Qed.
+End CDGolden.
